@@ -44,7 +44,9 @@ def catalogue():
 def in_known(name, spelling, text=None):
     # empty-text '#target' link whose target is missing: the fallback text is added only when the warning is
     # suppressed (transforms.py appends the warning node to the reference before testing `refnode.children`)
-    if name == "xref-empty":
+    import re as _re
+
+    if name == "xref-empty" or _re.search(r"\[\]\(#[^)]*\)", text or ""):
         return "C14-xref-fallback-text"
     # a warning raised while rendering heading text is appended inside the title/rubric, and the heading's
     # implicit name/id is computed from astext() of all its children - the warning text included
@@ -143,8 +145,8 @@ def replay(col, case, check):
     from harness import funcheck
 
     funcheck.load_contracts(["contracts.warnings"])
-    if "doc" in case:
-        check_doc(col, case["doc"], case["text"], case.get("overrides") or {})
+    if "text" in case:
+        check_doc(col, case.get("doc", "witness"), case["text"], case.get("overrides") or {})
     elif "args" in case:
         for kind, clause, msg in funcheck.check_call(case["function"], case["args"]) or []:
             col.fail(f"contract/{kind}[{clause}]", case, msg)
